@@ -29,7 +29,18 @@ import (
 	"golang.org/x/mod/sumdb/dirhash"
 )
 
-const pipeMod = "example.com/m"
+// module path of the synthetic modules; C01 varies it per scenario (PScn.Mod) — scenario evaluation is
+// sequential within a process, so a package-level variable is enough
+var pipeMod = "example.com/m"
+
+func withMod(s *PScn, f func()) {
+	old := pipeMod
+	if s.Mod != "" {
+		pipeMod = s.Mod
+	}
+	defer func() { pipeMod = old }()
+	f()
+}
 const pipeBase = "zz_generated"
 
 type PTag struct {
@@ -75,6 +86,17 @@ type PScn struct {
 	Root    string            `json:"root,omitempty"`   // harness-internal: use this directory instead of a fresh temp dir and keep it
 	Reuse   bool              `json:"reuse,omitempty"`  // harness-internal: the tree under Root already exists
 	Ops     []string          `json:"ops,omitempty"`    // history (C08): operations applied before each run, see histCase
+	Mod     string            `json:"mod,omitempty"`    // module path (default example.com/m)
+	Custom  map[string][]PItem `json:"custom,omitempty"` // gen@pkgpath@type → what a reaction with render code 'b' renders
+	Lib     bool              `json:"lib,omitempty"`    // add a module-local package <mod>/lib (type Thing) for references
+}
+
+// PItem: one rendered snippet of a custom body
+type PItem struct {
+	K    string `json:"k"`              // block | ref
+	S    string `json:"s"`              // block: the text; ref: a template with one @ref placeholder
+	Path string `json:"path,omitempty"` // ref: package path and exposed name
+	Name string `json:"name,omitempty"`
 }
 
 func (p PPkg) path() string { return pipeMod + "/" + p.Dir }
@@ -165,6 +187,12 @@ func (s *PScn) materialise(dir string) error {
 	}
 	if err := os.WriteFile(filepath.Join(dir, "go.mod"), []byte("module "+pipeMod+"\n\ngo "+gv+"\n"), 0o644); err != nil {
 		return err
+	}
+	if s.Lib {
+		os.MkdirAll(filepath.Join(dir, "lib"), 0o755)
+		if err := os.WriteFile(filepath.Join(dir, "lib", "lib.go"), []byte("package lib\n\ntype Thing struct{ N int }\n"), 0o644); err != nil {
+			return err
+		}
 	}
 	for i, p := range s.Pkgs {
 		pd := filepath.Join(dir, p.Dir)
@@ -270,6 +298,7 @@ func (s *PScn) prevSumText(hashes map[string]string) (string, bool) {
 // ---------------------------------------------------------------- recording generators
 
 type script struct {
+	custom map[string][]PItem
 	reacts map[string]string
 	kill   string
 	calls  []string
@@ -318,6 +347,15 @@ func (g *recState) do(c gengo.Context, pkg, typ string, isAlias bool) error {
 		render(c, fmt.Sprintf("var _%s_%s_%d = 1\n", g.name, typ, n))
 	case 'x':
 		render(c, "func {\n")
+	case 'b':
+		for _, it := range sc.custom[key] {
+			switch it.K {
+			case "block":
+				c.Render(snippet.Block(it.S))
+			case "ref":
+				c.Render(snippet.T(it.S, snippet.Arg("ref", snippet.PkgExpose(it.Path, it.Name))))
+			}
+		}
 	}
 	if len(code) > 2 {
 		switch code[2] {
@@ -527,7 +565,12 @@ func (s *PScn) executeOnce(dir string, sc *script) (res string, errText string) 
 
 // runScenarioHere materialises and runs the scenario in this process (the process's stdout must
 // already be silenced: gengo prints while it executes).
-func runScenarioHere(s *PScn) *POut {
+func runScenarioHere(s *PScn) (out *POut) {
+	withMod(s, func() { out = runScenarioHere1(s) })
+	return out
+}
+
+func runScenarioHere1(s *PScn) *POut {
 	out := &POut{Hashes: map[string]string{}}
 	root := s.Root
 	if root == "" {
@@ -571,7 +614,7 @@ func runScenarioHere(s *PScn) *POut {
 		return out
 	}
 	defer os.Chdir("/")
-	sc := &script{reacts: s.Reacts, kill: s.Kill, bodies: map[string]*strings.Builder{}}
+	sc := &script{reacts: s.Reacts, custom: s.Custom, kill: s.Kill, bodies: map[string]*strings.Builder{}}
 	out.Result, out.ErrText = s.executeOnce(dir, sc)
 	out.Calls = sc.calls
 	out.Bodies = map[string]string{}
@@ -591,7 +634,7 @@ func runScenarioHere(s *PScn) *POut {
 		}
 	}
 	for r := 1; r < s.Runs; r++ {
-		sc2 := &script{reacts: s.Reacts, bodies: map[string]*strings.Builder{}}
+		sc2 := &script{reacts: s.Reacts, custom: s.Custom, bodies: map[string]*strings.Builder{}}
 		res, _ := s.executeOnce(dir, sc2)
 		out.Runs = append(out.Runs, PRun{Result: res, Calls: sc2.calls, After: snapshotTree(dir)})
 	}
